@@ -15,7 +15,13 @@
     - F  C13 at run level ([run_shapes_post] and the [rwith_*] updates)
     - G  C14 at run level ([run_direct_unchanged_keep], [..._remove])
     - H  C04: the input predicate [valid_input] discharges D's hypothesis
-         ([run_total], [run_shexc_total]); errors characterised. *)
+         ([run_total], [run_shexc_total]); tracker facts ([track_total],
+         [track_classes], [track_err]); errors characterised
+    - I  the typing constraint survives: no empty shape before the shape-level
+         cleaning in all_classes mode for thresholds <= 1 ([run_raw_nonempty]);
+         corollaries [run_direct_unchanged_all_classes] (C14),
+         [run_total_all_classes] / [run_shexc_total_all_classes] (C04),
+         [run_keys_monotone_all_classes] (C12). *)
 From Coq Require Import List Ascii String ZArith NArith Bool Lia Permutation.
 From Shexer Require Import Lib.PyStr Lib.Dict Lib.Bin64 Gen.Consts Spec.Rdf Model.Tracker Model.Profiler
   Model.Tokens Model.Freq Model.FreqInst Model.Shexing Model.SerialShexc Model.Run Spec.Counts.
